@@ -53,8 +53,9 @@ const (
 	DirectiveINFOGottaBeOnlyOneTime   = "The directive INFO has already been specified before"
 	DirectiveBaseURLAlreadyDefined    = "The directive BaseUrl has already been defined before"
 
-	UnknownDirective = "unknown directive"
-	UnknownNotation  = "unknown notation"
+	UnknownDirective      = "unknown directive"
+	NoDirectiveForElement = "there is no directive to which this element could belong"
+	UnknownNotation       = "unknown notation"
 
 	RequiredParameterNotSpecified         = "required parameter(s) not specified"
 	ParametersAreForbiddenForTheDirective = "the directive should not have parameters in this case"
